@@ -9,6 +9,7 @@ import (
 	"fmt"
 	"testing"
 
+	"github.com/bilibili/smgo/sm4"
 	"verif/refs/gcmref"
 	"verif/vx"
 )
@@ -108,7 +109,7 @@ func c07eval(r *vx.R, c c07case, fast cipher.AEAD) {
 }
 
 func TestVX_C07(t *testing.T) {
-	r := vx.Begin("C07", gcmPart("open"), "valid messages over pt lengths {0,1,15,16,17,31,32,33,63,64,65,127,128,129,255,256,257,1100} x aad {0,1,16,17,129} x nonce length {1,12,13,16,128} x tag {12..16} (quick: a slice), plus large base messages (pt,aad) in {(2048,13),(4096,0),(4097,13),(65537,5),(33,4096),(20,65537),(8192,8192)} [thorough: also (2^20,3),(2^20+17,2^16+1),(16389,0)]: Open must return the plaintext; then every single-bit flip of ciphertext body, tag, nonce and aad (large messages: one bit in each byte at both ends, the middle and next to every kernel-width boundary), removal of the last 1..tagSize bytes, removal of the first byte, one appended byte, the tag presented to an AEAD of every other tag size, every prefix shorter than the tag, all-zero tag. Oracle: reference GCM decides (standard library generic GCM over sm4ref, itself checked against gcmref on each base message; gcmref directly where the standard library cannot express the parameters); never panic; nil plaintext on error; no plaintext left in the caller's dst after a rejection; the destination-with-spare variants are opened a second time in the record layout (one buffer header|ciphertext: dst = additional data = header, opened in place) with the same verdict required. Shape=(key, mutation, lengths, verdict, path)")
+	r := vx.Begin("C07", gcmPart("open"), "valid messages over pt lengths {0,1,15,16,17,31,32,33,63,64,65,127,128,129,255,256,257,1100} x aad {0,1,16,17,129} x nonce length {1,12,13,16,128} x tag {12..16} (quick: a slice), plus large base messages (pt,aad) in {(2048,13),(4096,0),(4097,13),(65537,5),(33,4096),(20,65537),(8192,8192)} [thorough: also (2^20,3),(2^20+17,2^16+1),(16389,0)]: Open must return the plaintext; then every single-bit flip of ciphertext body, tag, nonce and aad (large messages: one bit in each byte at both ends, the middle and next to every kernel-width boundary), removal of the last 1..tagSize bytes, removal of the first byte, one appended byte, the tag presented to an AEAD of every other tag size, every prefix shorter than the tag, all-zero tag. Oracle: reference GCM decides (standard library generic GCM over sm4ref, itself checked against gcmref on each base message; gcmref directly where the standard library cannot express the parameters); never panic; nil plaintext on error; no plaintext left in the caller's dst after a rejection; three AEADs built from one Block in every order of five (nonce,tag) parameter sets, each used after the others exist; the destination-with-spare variants are opened a second time in the record layout (one buffer header|ciphertext: dst = additional data = header, opened in place) with the same verdict required. Shape=(key, mutation, lengths, verdict, path)")
 	defer r.End()
 	selfCheck()
 	if raw, ok := vx.Replay(gcmPart("open")); ok {
@@ -218,6 +219,69 @@ func TestVX_C07(t *testing.T) {
 						return
 					}
 					doBase([]string{"std", "s1", "zero"}[n%3], pl, al, nl, tag, false)
+				}
+			}
+		}
+	}
+	// several AEADs built from ONE Block, in every order of three out of five parameter sets: each must keep its own
+	// nonce and tag size whatever was constructed after it (an older AEAD used after a newer one was made)
+	type sib struct{ nl, tag int }
+	sibs := []sib{{12, 16}, {12, 12}, {16, 16}, {12, 14}, {1, 16}}
+	for i := range sibs {
+		for j := range sibs {
+			for k := range sibs {
+				if i == j || j == k || i == k {
+					continue
+				}
+				n++
+				if !vx.MineIdx(n) {
+					continue
+				}
+				key := keyByName("s1")
+				blk, err := sm4.NewCipher(key)
+				if err != nil {
+					panic(err)
+				}
+				order := []sib{sibs[i], sibs[j], sibs[k]}
+				var as []cipher.AEAD
+				for _, o := range order {
+					a, err := aeadFromBlock(blk, o.nl, o.tag)
+					if err != nil {
+						a = nil
+					}
+					as = append(as, a)
+				}
+				for round := 0; round < 2; round++ {
+					for x, a := range as {
+						if a == nil {
+							continue
+						}
+						o := order[x]
+						r.Eval(1)
+						nonce, pt, aad := fillLen("nonce", o.nl), fillLen("pt", 37), fillLen("aad", 5)
+						want := gcmref.Seal(refCipher(key), nonce, pt, aad, o.tag)
+						cs := c07case{Key: "s1", Nonce: vx.Hex(nonce), CT: vx.Hex(want), AAD: vx.Hex(aad), Tag: o.tag, Mut: fmt.Sprintf("siblings:%v:use%d", order, x)}
+						var got, back []byte
+						var oerr, terr error
+						kind, msg := vx.TryFault(func() {
+							got = a.Seal(nil, nonce, pt, aad)
+							back, oerr = a.Open(nil, nonce, want, aad)
+							_, terr = a.Open(nil, nonce, want[:len(want)-1], aad)
+						})
+						switch {
+						case kind != "":
+							r.Violation("open:siblings:panic", fmt.Sprintf("AEAD #%d of %v built from one Block panicked: %s", x, order, msg), cs)
+						case a.NonceSize() != o.nl || a.Overhead() != o.tag:
+							r.Violation("open:siblings:parameters-changed", fmt.Sprintf("AEAD #%d of %v built from one Block now reports nonce size %d, overhead %d", x, order, a.NonceSize(), a.Overhead()), cs)
+						case !bytes.Equal(got, want):
+							r.Violation("open:siblings:seal-wrong", fmt.Sprintf("AEAD #%d of %v built from one Block seals differently from SP 800-38D with its own parameters", x, order), cs)
+						case oerr != nil || !bytes.Equal(back, pt):
+							r.Violation("open:siblings:rejects-authentic", fmt.Sprintf("AEAD #%d of %v built from one Block rejects an authentic message: %v", x, order, oerr), cs)
+						case terr == nil:
+							r.Violation("open:siblings:accepts-truncated-tag", fmt.Sprintf("AEAD #%d of %v built from one Block accepts a message whose tag was cut by one byte", x, order), cs)
+						}
+						r.Shape(fmt.Sprintf("siblings:%v:%d:%d", order, x, round))
+					}
 				}
 			}
 		}
